@@ -62,8 +62,12 @@ func CropFloat3Attribute(m modeling.Mesh, attr string, boundingBox geometry.AABB
 		v1[attr] = make([]float64, 0)
 	}
 
+	// The points of the cloud are what its index list refers to, which is not
+	// necessarily every vertex, each once and in vertex order
 	decidingAttribute := m.Float3Attribute(attr)
-	for i := 0; i < decidingAttribute.Len(); i++ {
+	indices := m.Indices()
+	for p := 0; p < indices.Len(); p++ {
+		i := indices.At(p)
 		if !boundingBox.Contains(decidingAttribute.At(i)) {
 			continue
 		}
